@@ -169,11 +169,17 @@ def summarize_op(f):
         for e in p.events:
             if e[0] == "init" and e[1] == rl:
                 inits.add(e[3])
+    # the vector may be handed from one variable to another (built by a helper, finished by the caller)
+    chain = [rl]
+    while len(inits) == 1 and next(iter(inits))[0] == "local" and next(iter(inits))[1] not in chain and len(chain) < 4:
+        k = next(iter(inits))[1]
+        chain.append(k)
+        inits = {e[3] for p in s.paths() for e in p.events if e[0] == "init" and e[1] == k}
     fresh = (not in_place) and inits == {("call", "std::vec::Vec::new", ())}
     if not in_place and not fresh:
         # anything else (iterator chains, collect) is not one of the two idioms of this code base
         return None, ["result is neither the input vector nor a fresh Vec::new(): %s" % sorted(show(x, f) for x in (inits or {ret0}))], atoms
-    ret_forms = {ret0, ("local", rl), ("param", rl)}
+    ret_forms = {ret0} | {("local", k) for k in chain} | {("param", k) for k in chain}
 
     replaced = [False]
 
